@@ -251,6 +251,95 @@ impl MergeRig {
     }
 }
 
+/// Return addresses for which send_to on an IPv4 UDP socket fails on this host (each verified by a
+/// probe send): an IPv6 address, port 0, the broadcast address without SO_BROADCAST.
+fn unsendable_addresses() -> Vec<std::net::SocketAddr> {
+    let probe = match std::net::UdpSocket::bind("127.0.0.1:0") {
+        Ok(s) => s,
+        Err(_) => return vec![],
+    };
+    ["[::1]:4000", "127.0.0.1:0", "255.255.255.255:4000"].iter().filter_map(|a| a.parse::<std::net::SocketAddr>().ok()).filter(|a| probe.send_to(b"x", a).is_err()).collect()
+}
+
+/// Two batches on one real Responder: the requests of `dests` in order, then in reverse order.
+/// Returns a description of the first disagreement between the recorder and the traffic.
+fn send_failure_case(per_client: bool, v: rtref::Version, dests: &[usize], bad: &[std::net::SocketAddr]) -> Result<Option<String>, String> {
+    use roughenough::config::MemoryConfig;
+    use roughenough::key::LongTermKey;
+    use roughenough::responder::Responder;
+    crate::inproc::init();
+    let std_sock = std::net::UdpSocket::bind("127.0.0.1:0").map_err(|e| e.to_string())?;
+    std_sock.set_nonblocking(true).map_err(|e| e.to_string())?;
+    let port = std_sock.local_addr().unwrap().port();
+    let mut sock = mio::net::UdpSocket::from_socket(std_sock).map_err(|e| e.to_string())?;
+    let mut mc = MemoryConfig::new(port);
+    mc.seed = crate::inproc::DEFAULT_SEED.to_vec();
+    let mut ltk = LongTermKey::new(&mc.seed);
+    let rv = super::c10::rv(v);
+    let mut resp = Responder::new(rv, &mc, &mut ltk);
+    let mut stats: Box<dyn ServerStats> = if per_client { Box::new(PerClientStats::new()) } else { Box::new(AggregatedStats::new()) };
+    let good: Vec<crate::inproc::Client> = (0..2).map(|_| crate::inproc::Client::new()).collect();
+    let mut want_ok = 0u64;
+    let mut want_fail = 0u64;
+    let mut got_n = 0u64;
+    let mut got_bytes = 0usize;
+    for round in 0..2 {
+        let order: Vec<usize> = if round == 0 { dests.to_vec() } else { dests.iter().rev().cloned().collect() };
+        for (i, &d) in order.iter().enumerate() {
+            let addr = if d < 2 { good[d].sock.local_addr().unwrap() } else { bad[d - 2] };
+            let nonce = crate::inproc::nonce(0xfa11 + (round * 16 + i) as u64, v.nonce_len());
+            if d < 2 {
+                want_ok += 1;
+            } else {
+                want_fail += 1;
+            }
+            match v {
+                rtref::Version::Classic => resp.add_classic_request(nonce, addr),
+                rtref::Version::Ietf13 => {
+                    let req = rtref::responder::std_request(v, &nonce);
+                    resp.add_ietf_request(&req, nonce, addr)
+                }
+            }
+        }
+        resp.send_responses(&mut sock, &mut stats);
+        resp.reset();
+        // loopback delivery is synchronous; allow a little time all the same
+        let deadline = std::time::Instant::now() + Duration::from_millis(200);
+        loop {
+            for g in &good {
+                for (d, _) in g.drain() {
+                    got_n += 1;
+                    got_bytes += d.len();
+                }
+            }
+            if got_n >= want_ok || std::time::Instant::now() > deadline {
+                break;
+            }
+            std::thread::sleep(Duration::from_millis(1));
+        }
+        let st = c09::snap(&*stats);
+        let (rc, rr) = if v == rtref::Version::Classic { (got_n, 0) } else { (0, got_n) };
+        let problems: Vec<String> = [
+            ("total_responses_sent", st.responses, got_n),
+            ("num_classic_responses_sent", st.classic_resp, rc),
+            ("num_rfc_responses_sent", st.rfc_resp, rr),
+            ("total_bytes_sent", st.bytes as u64, got_bytes as u64),
+            ("total_failed_send_attempts", st.failed_sends, want_fail),
+        ]
+        .iter()
+        .filter(|(_, rec, real)| rec != real)
+        .map(|(n, rec, real)| format!("{} recorded {} actual {}", n, rec, real))
+        .collect();
+        if got_n != want_ok {
+            return Ok(Some(format!("batch {}: {} replies to sendable addresses expected, {} arrived", round, want_ok, got_n)));
+        }
+        if !problems.is_empty() {
+            return Ok(Some(format!("after batch {}: {}", round, problems.join("; "))));
+        }
+    }
+    Ok(None)
+}
+
 pub fn run(ctx: &Ctx) -> Result<(), String> {
     ctx.set_level("model_checking");
     crate::inproc::init();
@@ -430,6 +519,47 @@ pub fn run(ctx: &Ctx) -> Result<(), String> {
         return Err(e);
     }
 
+    // part 4: replies that cannot be sent. The real Responder is driven through its public API with
+    // return addresses the socket can and cannot send to; what the recorder reports is compared
+    // with the datagrams that actually arrived.
+    let sendfail_n = AtomicU64::new(0);
+    {
+        let bad = unsendable_addresses();
+        ctx.cov("unsendable_return_addresses", json!(bad.iter().map(|a| a.to_string()).collect::<Vec<_>>()));
+        if bad.is_empty() {
+            ctx.assume("no return address on this host makes send_to fail: the send-error branch was not exercised");
+        } else {
+            // destination alphabet: two receiving sockets + every unsendable address
+            let ndest = 2 + bad.len();
+            let depth = ctx.tier.pick(3u32, 4);
+            let mut cases = vec![];
+            for per_client in [false, true] {
+                for v in [rtref::Version::Classic, rtref::Version::Ietf13] {
+                    for l in 1..=depth {
+                        for code in 0..ndest.pow(l) {
+                            cases.push((per_client, v, (0..l).map(|i| code / ndest.pow(i) % ndest).collect::<Vec<usize>>()));
+                        }
+                    }
+                }
+            }
+            par_for(cases.len(), 16, |k, _| {
+                let (per_client, v, dests) = &cases[k];
+                sendfail_n.fetch_add(1, Relaxed);
+                transitions.fetch_add(dests.len() as u64 * 2, Relaxed);
+                match catch(|| send_failure_case(*per_client, *v, dests, &bad)) {
+                    Err(p) => ctx.violation("panic", "send_responses", "unsendable-address", json!({"kind":"sendfail","per_client":per_client,"version":v.name(),"destinations":dests,"panic":p})),
+                    Ok(Err(e)) => *failed.lock().unwrap() = Some(e),
+                    Ok(Ok(None)) => {}
+                    Ok(Ok(Some(msg))) => ctx.violation("stats-differ-from-traffic", "send_responses", if *per_client { "send-error/per-client" } else { "send-error/aggregated" },
+                        json!({"kind":"sendfail","per_client":per_client,"version":v.name(),"destinations":dests,"unsendable":bad.iter().map(|a| a.to_string()).collect::<Vec<_>>(),"message":msg})),
+                }
+            });
+            if let Some(e) = failed.lock().unwrap().take() {
+                return Err(e);
+            }
+        }
+    }
+
     // sampled extra: seeded random walk of length 10,000 on the recorder (limit 2)
     let mut sampled = 0u64;
     {
@@ -451,10 +581,11 @@ pub fn run(ctx: &Ctx) -> Result<(), String> {
     ctx.cov("recorder_histories", json!(evals.load(Relaxed)));
     ctx.cov("merge_histories", json!(merge_n.load(Relaxed)));
     ctx.cov("wiring_histories", json!(wiring_n.load(Relaxed)));
+    ctx.cov("send_failure_batches", json!(sendfail_n.load(Relaxed)));
     ctx.cov("sampled_evaluations", json!(sampled));
     ctx.cov("exhaustive", json!(true));
     ctx.cov("bound", json!({"recorder_len": len1, "recorder_ops": 25, "limits": [1, 2], "merge_len": len2, "merge_events": 15, "wiring_depth": ctx.tier.pick("4 (aggregated) / 3 (per-client)", "5 / 4")}));
-    ctx.cov("rule", json!(format!("(1) all sequences of length <= {} over 8 recording operations x 3 addresses + clear on the real PerClientStats (limit 1 and 2) and AggregatedStats, with a step oracle after every operation: the observable state (per-address counters, bytes, overflow count) changed by exactly the event's own counter +1 (bytes + argument) OR overflow +1; tracked <= limit; every getter equals the sum over rows; iter() == rows; aggregated totals equal per-client totals while overflow is 0. states = distinct canonical recorder states reached. (2) all sequences of {} events over {{record(w,op,addr) x12, snapshot(w0), snapshot(w1), receive}} + final receive through the real iter->force_push->clear hand-off, the real ArrayQueue (capacity 4) and the real Reporter::receive_client_stats, against a model queue that drops the oldest snapshot when full: reporter per-address sums == sums of popped snapshots. (3) C09 event histories extended with the periodic hand-off event on real Servers (aggregated and per-client recorder): recorded valid/classic/ietf/invalid/responses/bytes == datagrams actually sent and received (histories without hand-off); every hand-off returns even when the undrained queue is full (wedge watchdog), traffic still served.", len1, len2)));
+    ctx.cov("rule", json!(format!("(1) all sequences of length <= {} over 8 recording operations x 3 addresses + clear on the real PerClientStats (limit 1 and 2) and AggregatedStats, with a step oracle after every operation: the observable state (per-address counters, bytes, overflow count) changed by exactly the event's own counter +1 (bytes + argument) OR overflow +1; tracked <= limit; every getter equals the sum over rows; iter() == rows; aggregated totals equal per-client totals while overflow is 0. states = distinct canonical recorder states reached. (2) all sequences of {} events over {{record(w,op,addr) x12, snapshot(w0), snapshot(w1), receive}} + final receive through the real iter->force_push->clear hand-off, the real ArrayQueue (capacity 4) and the real Reporter::receive_client_stats, against a model queue that drops the oldest snapshot when full: reporter per-address sums == sums of popped snapshots. (3) C09 event histories extended with the periodic hand-off event on real Servers (aggregated and per-client recorder): recorded valid/classic/ietf/invalid/responses/bytes == datagrams actually sent and received (histories without hand-off); every hand-off returns even when the undrained queue is full (wedge watchdog), traffic still served. (4) the real Responder driven through its public API: every sequence (length <= 3, thorough 4) of return addresses over {{two receiving sockets, addresses send_to fails for (IPv6 on an IPv4 socket, port 0, broadcast)}} as one batch and then reversed as a second batch, both protocols, both recorders: responses / bytes recorded == datagrams / bytes that arrived, failed send attempts == unsendable addresses, after each batch.", len1, len2)));
     ctx.sample(json!({"kind":"recorder","limit":1,"names":["classic_req@a0","rfc_resp@a1","clear","health@a1"]}));
     ctx.sample(json!({"kind":"merge","events":["rec:w0:classic_req:a0","snap:w0","rec:w1:classic_req:a0","snap:w1","receive"]}));
     ctx.assume("part 2 reuses one Reporter per chunk of histories (Reporter::new allocates a 5M-entry map); the model is cumulative, so the oracle stays exact");
@@ -481,6 +612,16 @@ pub fn replay_case(c: &Value) -> Result<Option<String>, String> {
                 }
             }
             Ok(None)
+        }
+        Some("sendfail") => {
+            let dests: Vec<usize> = c["destinations"].as_array().ok_or("destinations")?.iter().map(|x| x.as_u64().unwrap_or(0) as usize).collect();
+            let v = if c["version"].as_str() == Some("classic") { rtref::Version::Classic } else { rtref::Version::Ietf13 };
+            let per_client = c["per_client"].as_bool().unwrap_or(false);
+            let bad = unsendable_addresses();
+            if dests.iter().any(|d| *d >= 2 + bad.len()) {
+                return Err("this host has fewer unsendable addresses than the recording host".into());
+            }
+            crate::util::on_named_thread("worker-0", move || send_failure_case(per_client, v, &dests, &bad))
         }
         _ => Err("replay of this case kind: re-run the check".into()),
     }
